@@ -4,4 +4,5 @@ The theorems live with the driver bookkeeping in `Flowdyn/Props/C07.lean` (names
 `loop_core`, `loop_indep_of_saves_and_monitors`, `run_indep_of_saves_and_monitors`, `restart_split`, …
 -/
 import Flowdyn.Props.C07
+import Flowdyn.Props.C07b
 import Flowdyn.Props.C08b
